@@ -176,7 +176,10 @@ def main():
                 processor.privatekey = args.newprivatekey
 
                 try:
-                    processor.set_eyaml_value(yaml_path, txtval, output=output)
+                    # The decrypted text is clear text even when it happens
+                    # to look like an EYAML value
+                    processor.set_eyaml_value(
+                        yaml_path, txtval, output=output, force=True)
                 except EYAMLCommandException as ex:
                     log.error(ex)
                     exit_state = 3
